@@ -40,26 +40,54 @@ import (
 )
 
 // KnownIssues: key -> true = mask the defect, false = let the test fail on it.
-var KnownIssues = map[string]bool{
-	// BMPPeerHeader.Serialize computes the microsecond field with math.Ceil(frac*1e6).  A float64
-	// holding seconds since 1970 plus microseconds has about 0.1 us of rounding noise, so Ceil
-	// yields usec+1 for roughly half of all values: the timestamp does not round-trip and drifts
-	// by one microsecond per decode/encode cycle.
-	// Reproducer: Timestamp = 1.1 (what DecodeFromBytes returns for sec=1, usec=100000) is written
-	// as sec=1, usec=100001.
-	"bmp-timestamp-ceil": true,
-	// parseBMPMessage slices data[6:Header.Length] without comparing Length with len(data): when
-	// the slice handed in has spare capacity, octets beyond its length (stale buffer contents)
-	// are parsed as part of the message (with cap==len the out-of-range panic is recovered and
-	// reported as an error).
-	// Reproducer: buf := make([]byte, 6, 64); buf = 03 00000012 04 -> ParseBMPMessage(buf) returns
-	// an Initiation message with three empty string TLVs read from buf[6:18].
-	"bmp-parse-reslices-beyond-len": true,
-	// SplitBMP accepts a common header whose Length is smaller than the header itself: Length
-	// 1..5 yields a token shorter than a header; Length 0 yields (0, empty non-nil token, nil),
-	// which makes bufio.Scanner return empty tokens forever (panic "too many empty tokens" at EOF).
-	// Reproducer: 03 00000000 04.
-	"bmp-split-length-below-header": true,
+// (empty: bmp-timestamp-ceil, bmp-parse-reslices-beyond-len and bmp-split-length-below-header are
+// fixed; the probes below keep their reproducers)
+var KnownIssues = map[string]bool{}
+
+// c19BmpProbes: deterministic reproducers, one per finding (fixed or open), Sig = the key.
+var c19BmpProbes = map[string]func() *verifkit.Failure{
+	// BMPPeerHeader.Serialize used math.Ceil for the microsecond field.
+	"bmp-timestamp-ceil": func() *verifkit.Failure {
+		stamp := float64(1) + float64(100000)*math.Pow10(-6) // what DecodeFromBytes yields for sec=1 usec=100000
+		h := NewBMPPeerHeader(BMP_PEER_TYPE_GLOBAL, 0, 0, netip.MustParseAddr("10.0.0.1"), 65000, netip.MustParseAddr("10.0.0.2"), stamp)
+		w, err := h.Serialize()
+		if err != nil || len(w) < BMP_PEER_HEADER_SIZE {
+			return verifkit.Failf("bmp-timestamp-ceil", "peer header does not serialise: %v", err)
+		}
+		if sec, usec := binary.BigEndian.Uint32(w[34:38]), binary.BigEndian.Uint32(w[38:42]); sec != 1 || usec != 100000 {
+			return verifkit.Failf("bmp-timestamp-ceil", "Timestamp 1.1 (sec=1 usec=100000 as decoded) is written as sec=%d usec=%d", sec, usec)
+		}
+		return nil
+	},
+	// parseBMPMessage sliced data[6:Length] up to the capacity of the slice.
+	"bmp-parse-reslices-beyond-len": func() *verifkit.Failure {
+		buf := make([]byte, 6, 64)
+		copy(buf, []byte{BMP_VERSION, 0, 0, 0, 18, BMP_MSG_INITIATION})
+		var m *BMPMessage
+		var err error
+		if f := c19BmpSafely("ParseBMPMessage", func() { m, err = ParseBMPMessage(buf) }); f != nil {
+			f.Sig = "bmp-parse-reslices-beyond-len"
+			return f
+		}
+		if err == nil {
+			return verifkit.Failf("bmp-parse-reslices-beyond-len", "ParseBMPMessage on 6 octets (Length field 18) inside a 64-octet buffer succeeds: %s", c19BmpJSON(m))
+		}
+		return nil
+	},
+	// SplitBMP accepted Length < 6.
+	"bmp-split-length-below-header": func() *verifkit.Failure {
+		in := []byte{BMP_VERSION, 0, 0, 0, 0, BMP_MSG_INITIATION}
+		adv, tok, err := SplitBMP(in, false)
+		if err == nil && tok != nil {
+			return verifkit.Failf("bmp-split-length-below-header", "SplitBMP(%x) returns advance %d and a token of %d octets (shorter than a header)", in, adv, len(tok))
+		}
+		in = []byte{BMP_VERSION, 0, 0, 0, 3, BMP_MSG_INITIATION}
+		adv, tok, err = SplitBMP(in, false)
+		if err == nil && tok != nil {
+			return verifkit.Failf("bmp-split-length-below-header", "SplitBMP(%x) returns advance %d and a token of %d octets (shorter than a header)", in, adv, len(tok))
+		}
+		return nil
+	},
 }
 
 type c19BmpCase struct {
@@ -232,14 +260,7 @@ func c19BmpPeerHeader(s *verifgen.Src, st *verifkit.Stats, issue *string) (BMPPe
 	sec := s.U32()
 	usec := uint32(0)
 	if s.Chance(1, 4) {
-		if KnownIssues["bmp-timestamp-ceil"] {
-			if st != nil {
-				st.Exclude("bmp-timestamp-ceil")
-			}
-		} else {
-			usec = uint32(1 + s.Intn(999999))
-			*issue = "bmp-timestamp-ceil"
-		}
+		usec = uint32(1 + s.Intn(999999))
 	}
 	// exactly the value DecodeFromBytes produces for (sec, usec)
 	stamp := float64(sec) + float64(usec)*math.Pow10(-6)
@@ -586,11 +607,7 @@ func c19BmpCheckMessage(in []byte, o *bgp.MarshallingOption, st *verifkit.Stats)
 		return f
 	}
 	if a, b := c19BmpOutcome(m, err), c19BmpOutcome(m2, err2); a != b {
-		if KnownIssues["bmp-parse-reslices-beyond-len"] && len(in) >= BMP_HEADER_SIZE && uint64(binary.BigEndian.Uint32(in[1:5])) > uint64(len(in)) {
-			st.Exclude("bmp-parse-reslices-beyond-len")
-		} else {
-			return verifkit.Failf("reads-beyond-len", "ParseBMPMessage(%x) depends on the spare capacity behind the slice:\n cap==len: %s\n with spare capacity: %s", in, a, b)
-		}
+		return verifkit.Failf("reads-beyond-len", "ParseBMPMessage(%x) depends on the spare capacity behind the slice:\n cap==len: %s\n with spare capacity: %s", in, a, b)
 	}
 	if !framed {
 		return nil
@@ -668,14 +685,6 @@ func c19BmpCheckBody(kind int, ph BMPPeerHeader, data []byte, o *bgp.Marshalling
 }
 
 func c19BmpCheckSplit(in []byte, st *verifkit.Stats) *verifkit.Failure {
-	short := func() bool { // some header in the stream declares a Length below the header size
-		for i := 0; i+6 <= len(in); i++ {
-			if in[i] == BMP_VERSION && binary.BigEndian.Uint32(in[i+1:i+5]) < BMP_HEADER_SIZE {
-				return true
-			}
-		}
-		return false
-	}
 	for _, eof := range []bool{false, true} {
 		g := c19BmpGuarded(in, 0xaa)
 		keep := append([]byte{}, g...)
@@ -699,11 +708,7 @@ func c19BmpCheckSplit(in []byte, st *verifkit.Stats) *verifkit.Failure {
 		if err == nil && tok != nil {
 			st.Label("split-token")
 			if len(tok) < BMP_HEADER_SIZE || adv != len(tok) {
-				if KnownIssues["bmp-split-length-below-header"] {
-					st.Exclude("bmp-split-length-below-header")
-				} else {
-					return verifkit.Failf("split-short-token", "SplitBMP(%x) returns advance %d and a token of %d octets (shorter than a header)", in, adv, len(tok))
-				}
+				return verifkit.Failf("split-short-token", "SplitBMP(%x) returns advance %d and a token of %d octets (shorter than a header)", in, adv, len(tok))
 			}
 		} else if err != nil {
 			st.Label("split-error")
@@ -744,10 +749,6 @@ func c19BmpCheckSplit(in []byte, st *verifkit.Stats) *verifkit.Failure {
 		}
 		st.LabelN("scanner-tokens", n)
 	}()
-	if fail != nil && (fail.Sig == "scanner-no-progress" || fail.Sig == "scanner-panic") && KnownIssues["bmp-split-length-below-header"] && short() {
-		st.Exclude("bmp-split-length-below-header")
-		return nil
-	}
 	return fail
 }
 
@@ -947,6 +948,9 @@ func runC19Bmp(c c19BmpCase, st *verifkit.Stats) *verifkit.Failure {
 }
 
 func TestVerifC19_bmp(t *testing.T) {
+	for key, p := range c19BmpProbes {
+		verifkit.RegisterProbe("C19_bmp", key, func(*verifkit.Stats) *verifkit.Failure { return p() })
+	}
 	verifkit.Run(t, "C19_bmp", drawC19Bmp, runC19Bmp)
 }
 
